@@ -39,6 +39,44 @@ def same(exp, got):
   return t['py'] == exp['py'] and t['h'] == exp['h'] and t['s'] == exp['s']
 
 
+def indexed(ctx, d, stats):
+  """Indexed parameters x[0..n-1] are presented as one list in INDEX order (n up to 13: lexicographic order differs from 10 on)."""
+  import world
+  from vizier import pyvizier as vz
+  from vizier._src.service import clients
+  from vizier._src.service import study_pb2
+  from vizier._src.service import vizier_client
+  from vizier._src.service import vizier_service_pb2 as vs
+  from vizier.service import pyvizier as svz
+  res, recs = ssutil.run_mode('indexed', d)
+  svc = world.make_servicer(None)
+  for r in recs:
+    n = r['n']
+    sc = svz.StudyConfig()
+    for i in range(n):
+      sc.search_space.root.add_float_param('x', 0.0, 20.0, index=i)
+    sc.metric_information.append(vz.MetricInformation('a', goal=vz.ObjectiveMetricGoal.MAXIMIZE))
+    sc.algorithm = 'RANDOM_SEARCH'
+    st = svc.CreateStudy(vs.CreateStudyRequest(parent='owners/c17i', study=study_pb2.Study(display_name='n%d' % n, study_spec=sc.to_proto())))
+    t = study_pb2.Trial()
+    for i in reversed(range(n)):
+      t.parameters.add(parameter_id='x[%d]' % i).value.number_value = float(i)
+    stored = svc.CreateTrial(vs.CreateTrialRequest(parent=st.name, trial=t))
+    exp = {'x': r['values']}
+    for api in ('clients.Trial.parameters', 'StudyConfig.trial_parameters'):
+      stats['indexed_reads'] += 1
+      try:
+        if api == 'clients.Trial.parameters':
+          got = dict(clients.Trial(vizier_client.VizierClient(st.name, 'c', svc), int(stored.id)).parameters)
+        else:
+          got = dict(sc.trial_parameters(svc.GetTrial(vs.GetTrialRequest(name=stored.name))))
+      except Exception as e:  # pylint: disable=broad-except
+        got = 'raised %s' % type(e).__name__
+      if not (isinstance(got, dict) and set(got) == {'x'} and same(exp['x'], list(got['x']) if isinstance(got['x'], (list, tuple)) else got['x'])):
+        ctx.violation({'via': 'present', 'api': api, 'what': 'indexed-order', 'n': n},
+                      {'kind': 'present', 'n': n, 'expected': exp, 'observed': repr(got)})
+
+
 def run(ctx):
   import world
   from vizier import pyvizier as vz
@@ -66,9 +104,11 @@ def run(ctx):
           continue
         tree = r['tree']
         key = json.dumps(tree, sort_keys=True)
+        route = 'factory' if (len(studies) + (1 if sample else 0)) % 2 else 'selector'
         if key not in studies:
           sc = svz.StudyConfig()
-          sc.search_space = ssutil.build_space(tree)
+          # two construction routes: user-facing selectors, and ParameterConfig.factory(children=...) with multi-valued parent sets
+          sc.search_space = ssutil.build_space_factory(tree) if route == 'factory' else ssutil.build_space(tree)
           sc.metric_information.append(vz.MetricInformation('a', goal=vz.ObjectiveMetricGoal.MAXIMIZE))
           sc.algorithm = 'RANDOM_SEARCH'
           st = svc.CreateStudy(vs.CreateStudyRequest(parent='owners/c17', study=study_pb2.Study(
@@ -116,6 +156,7 @@ def run(ctx):
     ok_recs = [r for r in recs if r['ok']]
     ctx.sample({'tree': [(n['name'], n['kind'], n['parent'], n['pv']) for n in ok_recs[len(ok_recs) // 2]['tree']],
                 'stored': ok_recs[len(ok_recs) // 2]['trial'], 'presented': expected_mapping(ok_recs[len(ok_recs) // 2]['tree'], ok_recs[len(ok_recs) // 2])})
+    indexed(ctx, d, stats)
   presentable = sum(1 for r in recs if r['ok'])
   ctx.coverage.update({'states': res.distinct, 'transitions': res.distinct, 'traces_validated_against_impl': stats['reads'],
                        'evaluations': stats['reads'], 'distinct_nontrivial': len(recs), 'exhaustive': True,
